@@ -12,10 +12,7 @@
 //                         -DSH_SSET_ER=1 / -DSH_SSET_HER=1   static_set::equal_range(key) / (K const&) instantiate
 //                         -DSH_FSET_INS_SU=1 flat_set::insert(sorted_unique, first, last) links
 #include "common.hpp"
-
-#include <sys/mman.h>
-#include <sys/wait.h>
-#include <unistd.h>
+#include "contain.hpp"
 
 #include <algorithm>
 #include <functional>
@@ -58,26 +55,6 @@ inline bool operator<(Tracked const& a, HK b) { return a.v < b.k; }
 inline bool operator<(HK a, Tracked const& b) { return a.k < b.v; }
 
 namespace {
-
-// ---- crash containment ---------------------------------------------------------------------------------
-// The calls run in a forked child.  Before every call the child leaves the header of the event it is about
-// to produce in shared memory; when the child is killed by a signal (valid calls that run into undefined
-// behaviour inside the library) the parent records that header as a `crash` event - judged by the trace
-// specification like any other event - and a new child resumes with the next script.
-struct Shared {
-    long script_idx;
-    long pending_len;
-    char pending[1 << 16];
-};
-Shared* shared = nullptr;
-inline void set_pending(json const& h)
-{
-    if (shared == nullptr) { return; }
-    std::string s = h.dump();
-    if (s.size() >= sizeof(shared->pending)) { s = "{}"; }
-    std::memcpy(shared->pending, s.data(), s.size());
-    shared->pending_len = (long)s.size();
-}
 
 enum { K_SSET = 0, K_FSET = 1, K_FMSET = 2, K_FSETIPV = 3 }; // 3: flat_set over inplace_vector (same surface as 1)
 enum { C_LESS = 0, C_GREATER = 1, C_TRANSPARENT = 2 };
@@ -422,7 +399,7 @@ struct Runner {
         ev["univ"] = univ;
         ev["pre"]  = state();
         ev["inst"] = inst;
-        set_pending(ev);
+        vhc::set_pending(ev);
         long ri = 0, rn = 0;
         json out;
         ++nrun;
@@ -468,8 +445,7 @@ struct Runner {
             if (ln.contains("reset")) {
                 ++si;
                 if (si < start) { continue; }
-                if (shared != nullptr) { shared->script_idx = si; }
-                alarm(20); // a script that does not return within 20 s is reported as a crash (SIGALRM)
+                vhc::begin_script(si); // a script that does not return within 20 s is reported as a crash (SIGALRM)
                 reset();
                 broken = false;
                 if (ln.contains("univ")) { univ = ln["univ"].get<std::vector<int>>(); }
@@ -691,31 +667,8 @@ int main(int argc, char** argv)
         lines   = vh::read_ndjson(a.script);
         a.lines = &lines;
     }
-    shared = static_cast<Shared*>(mmap(nullptr, sizeof(Shared), PROT_READ | PROT_WRITE, MAP_SHARED | MAP_ANONYMOUS, -1, 0));
-    if (shared == MAP_FAILED) { return 2; }
-    long ncrash = 0;
-    for (;;) {
-        shared->script_idx  = a.start;
-        shared->pending_len = 0;
-        std::fflush(nullptr);
-        pid_t pid = fork();
-        if (pid < 0) { return 2; }
-        if (pid == 0) {
-            int rc = dispatch(a, std::index_sequence<SH_CAPS>{});
-            std::fflush(nullptr);
-            _exit(rc);
-        }
-        int st = 0;
-        if (waitpid(pid, &st, 0) < 0) { return 2; }
-        if (WIFEXITED(st)) { return WEXITSTATUS(st); }
-        int sig = WIFSIGNALED(st) ? WTERMSIG(st) : -1;
-        ++ncrash;
-        json ev = shared->pending_len > 0 ? json::parse(std::string(shared->pending, (size_t)shared->pending_len)) : json::object();
-        if (!ev.contains("op")) { return 2; } // died outside a call: harness problem
-        ev["crash"] = sig;
-        vh::emit(ev);
-        std::fprintf(stderr, "CRASH inst=%s signal=%d script=%ld\n", ev.value("inst", std::string("?")).c_str(), sig, shared->script_idx);
-        if (a.mode != "replay" || ncrash >= 400) { return 0; } // a random history ends with the crash
-        a.start = shared->script_idx + 1;
-    }
+    return vhc::run_contained(a.mode == "replay", [&](long start) {
+        a.start = start;
+        return dispatch(a, std::index_sequence<SH_CAPS>{});
+    });
 }
